@@ -35,6 +35,10 @@ pub struct PairSpec {
 	/// both sounds are made from the bytes of a WAV file (the library's own decoder on the streaming side) instead of a frame
 	/// buffer and a scripted decoder
 	pub file_backed: bool,
+	/// the loop region is not a setting: both handles are given it (set_loop_region) before the first callback. The loop end
+	/// lies more than one decoder ring (16 384 frames) past the start position, so nothing decoded before the decoder thread
+	/// has read the command depends on it and the two sounds stay comparable
+	pub lp_by_handle: bool,
 }
 
 #[derive(Clone, Debug)]
@@ -81,10 +85,25 @@ pub fn gen_pair(r: &mut Rng, quick: bool) -> PairSpec {
 		3 => vec![1024],
 		_ => vec![4096, 1, 333],
 	};
+	if r.chance(0.05) {
+		// a long (usually sliced) sound whose loop region arrives through the handles
+		let len = r.usize_in(20_000, 26_000);
+		let slice = if r.chance(0.75) {
+			let s0 = r.usize_in(0, 1500);
+			Some((s0, if r.chance(0.4) { len } else { len - r.usize_in(1, 1500) }))
+		} else {
+			None
+		};
+		let l = slice.map(|(s, e)| e - s).unwrap_or(len);
+		let start = r.usize_in(0, l - 16_384 - 400);
+		let a = r.below((l / 2) as u64) as usize;
+		let b = if r.chance(0.7) { l } else { r.usize_in(start + 16_384 + 200, l) };
+		return PairSpec { len, sr, dev_sr: sr, slice, start, lp: Some((a, b)), rate: 1.0, vol_db: 0.0, pan: 0.0, fade_in: None, delay_start: None, packets, seek_gran: *r.pick(&[1usize, 8, 1000]), chunk: *r.pick(&[333usize, 512]), seed: r.next(), file_backed: r.chance(0.3), lp_by_handle: true };
+	}
 	if len > 17000 && slice.is_none() && r.chance(0.35) {
 		// callbacks whose size divides 16383 = 3 x 43 x 127: one of them begins exactly when the 16384-slot ring between the
 		// decoder thread and the sound wraps (rate 1, device at the sound's rate, so one output frame consumes one ring slot)
-		return PairSpec { len, sr, dev_sr: sr, slice: None, start: 0, lp, rate: 1.0, vol_db: 0.0, pan: 0.0, fade_in: None, delay_start: None, packets, seek_gran: 1, chunk: *r.pick(&[381usize, 5461]), seed: r.next(), file_backed: false };
+		return PairSpec { len, sr, dev_sr: sr, slice: None, start: 0, lp, rate: 1.0, vol_db: 0.0, pan: 0.0, fade_in: None, delay_start: None, packets, seek_gran: 1, chunk: *r.pick(&[381usize, 5461]), seed: r.next(), file_backed: false, lp_by_handle: false };
 	}
 	PairSpec {
 		len,
@@ -107,6 +126,7 @@ pub fn gen_pair(r: &mut Rng, quick: bool) -> PairSpec {
 		chunk: *r.pick(&[1usize, 16, 64, 128, 512, 333]),
 		seed: r.next(),
 		file_backed: len > 0 && r.chance(0.12),
+		lp_by_handle: false,
 	}
 }
 
@@ -141,7 +161,7 @@ pub fn run_pair(p: &PairSpec, r: &mut Rng, n_callbacks: usize) -> Result<Outcome
 		.panning(Panning(p.pan))
 		.start_time(start_time)
 		.fade_in_tween(fade);
-	if let Some((a, b)) = p.lp {
+	if let (Some((a, b)), false) = (p.lp, p.lp_by_handle) {
 		sst = sst.loop_region(region(a, b));
 		dst = dst.loop_region(region(a, b));
 	}
@@ -177,6 +197,13 @@ fn lockstep<E: Send + 'static + std::fmt::Display>(p: &PairSpec, r: &mut Rng, n_
 	let (mut ssound, mut sh) = sdata.into_sound().map_err(|_| "static into_sound failed".to_string())?;
 	let (mut dsound, mut dh) = ddata.into_sound().map_err(|e| format!("streaming into_sound failed: {}", e))?;
 	let dec_state = crate::hooks::last_decoder().ok_or("decoder hook not observed")?;
+	if let (Some((a, b)), true) = (p.lp, p.lp_by_handle) {
+		let l = p.slice.map(|(s, e)| e - s).unwrap_or(p.len);
+		// (a region that runs to the end of the sound is given open-ended)
+		let reg = if b == l { Region { start: PlaybackPosition::Samples(a), end: EndPosition::EndOfAudio } } else { region(a, b) };
+		sh.set_loop_region(reg);
+		dh.set_loop_region(reg);
+	}
 	let info = MockInfoBuilder::new().build();
 	let dt = 1.0 / p.dev_sr as f64;
 	let mut so = vec![Frame::ZERO; p.chunk];
@@ -334,6 +361,7 @@ pub fn run(ctx: &mut Ctx) {
 		match res {
 			Ok(Ok(o)) => {
 				ctx.count("callbacks_compared", o.callbacks);
+				ctx.count("pairs_with_the_loop_region_given_through_the_handles", p.lp_by_handle as u64);
 				ctx.count("frames_compared", o.frames);
 				if o.inconclusive {
 					ctx.inconclusive += 1;
